@@ -27,14 +27,14 @@ NA = {
 CHECKS = {
     "C07": dict(
         category="exploration",
-        text="Deterministic simulation of decoration/instance/conversion histories: each simulated run (fresh interpreter) executes a seeded history over a pool of live instances of decorated targets (module-level functions with kwargs, nnx modules, nested nnx modules, unique=True modules, Equinox modules with static fields, plain classes, a class decorated late, re-decoration with unique=True, drop + GC for id reuse, temporaries created inside the traced function) and exports generated compositions of 1-6 call sites (same instance twice, equal-weight twins, different weights/static field/kwarg/input shape, call order, symbolic batch, opset 21/23, input_params), some under injected faults in the function-body path. Oracle per successful export: ORT(decorated) == ORT(reference = same callable with all function plugins removed from the registry) == eager JAX on three seeded inputs; every call node has exactly one definition with equal input/output arity and an imported domain (recursively); call sites sharing a definition come from value-equal objects. Seeded search over histories.",
+        text="Deterministic simulation of decoration/instance/conversion histories: each simulated run (fresh interpreter) executes a seeded history over a pool of live instances of decorated targets (module-level functions with kwargs, nnx modules, nested nnx modules, unique=True modules, Equinox modules with static fields, plain classes, a class decorated late, re-decoration with unique=True, drop + GC for id reuse, temporaries created inside the traced function, re-entrant nesting A->B->A', an undecorated subclass delegating to super(), targets exported under the name of an ONNX operator, binary targets with constant/data/unread operands, keyword values equal but of different type, pass-through and rewrite-pattern bodies, a large non-contiguous unique=True parameter) and exports generated compositions of 1-6 call sites (same instance twice, equal-weight twins, twins differing in exactly one respect, different weights/static field/kwarg/input shape, call order, symbolic batch, opset 21/23, input_params, one site passing a compile-time constant), some under injected faults in the function-body path. Oracle per successful export: ORT(decorated) == ORT(reference = same callable with all function plugins removed from the registry) == eager JAX on three seeded inputs; every call node has exactly one definition with equal input/output arity and an imported domain (recursively); call sites sharing a definition come from value-equal objects. Seeded search over histories.",
         design_ref="§5.1",
         note="Trusted: onnxruntime, eager JAX, the registry-removal reference export. Distinct weights differ by far more than the tolerance, so a confused instance is visible numerically.",
         technique="deterministic simulation: seeded stateful histories (decorate/instantiate/drop/GC/convert/faulted convert) with differential oracle vs undecorated export and JAX",
     ),
     "C15": dict(
         category="exploration",
-        text="Deterministic simulation of export/reload histories against a reference map path -> expected ModelProto: seeded sequences of file exports (standard/web) to five paths (existing dir, not-yet-existing subdir, relative to cwd, two names that differ from another target only by their suffix), ir and proto exports, user edits of returned ir models, planted stale/garbage sidecars and late reloads, with parameter sizes on a 4-byte ladder around the 1 MiB spill point, 512 KiB, 4 MiB, one or two large tensors, large constants inside function and loop bodies. Odd-numbered runs inject I/O faults through a file layer that owns open/os.fdopen/write/os.remove/os.path.getsize/os.makedirs (errors, torn writes, crash-class exceptions). Oracle after every returned export: reload equals the proto of the same request after storage normalisation (bit-exact payloads), external references resolve inside the directory, web main file alone loads, ORT(file)==ORT(proto) bitwise, ir->proto byte-equal, earlier ir handles unchanged, and the files delivered earlier to OTHER paths still resolve their references.",
+        text="Deterministic simulation of export/reload histories against a reference map path -> expected ModelProto: seeded sequences of file exports (standard/web) to five paths (existing dir, not-yet-existing subdir, relative to cwd, two names that differ from another target only by their suffix), ir and proto exports, user edits of returned ir models, planted stale/garbage sidecars and late reloads, with parameter sizes on a 4-byte ladder around the 1 MiB spill point, 512 KiB, 4 MiB, one or two large tensors, large constants inside function and loop bodies; requests with input_params, custom input/output names, NCHW boundaries, double precision and their combinations, lax.cond and dead-code programs, two registry testcases per run; every request goes through the ir-vs-proto comparison. Odd-numbered runs inject I/O faults through a file layer that owns open/os.fdopen/write/os.remove/os.path.getsize/os.makedirs (errors, torn writes, crash-class exceptions). Oracle after every returned export: reload equals the proto of the same request after storage normalisation (bit-exact payloads), external references resolve inside the directory, web main file alone loads, ORT(file)==ORT(proto) bitwise, ir->proto byte-equal, earlier ir handles unchanged, and the files delivered earlier to OTHER paths still resolve their references.",
         design_ref="§5.4",
         note="Trusted: onnx.load, onnxruntime, tmpfs semantics. After a raised export nothing is required of the files; the next successful export to that path must satisfy everything. Seeded search over histories.",
         technique="deterministic simulation: stateful export/reload machine over a fault-injecting file layer with an in-memory reference model",
@@ -48,14 +48,14 @@ CHECKS = {
     ),
     "C13": dict(
         category="fault_enumeration",
-        text="Deterministic simulation of conversion histories in fresh interpreters with synchronous fault injection: (1) exhaustive enumeration of every eligible CALL site of the patch stack and its callers (sys.monitoring, ~9-20k sites per program) x {ordinary exception, interrupt-class exception} for fixed fixture programs (flat function, module with @onnx_function children, nested functions); (2) seeded histories mixing fault-free and faulted conversions of fixture and registry programs, precision flags, return modes, late and nested decorations, GC and eager probes. After every operation the oracle compares the declared write set (586 attributes), periodically the full namespace (~100k statically resolved attributes of jax/flax/equinox/... modules and classes, plus ~1.6k entries of JAX's per-primitive dispatch tables for primitives the host owns), the 64-bit flag, a deep fingerprint of the user object, and eager behaviour against a conversion-free control interpreter. Sampling over histories, exhaustive over single-fault sites of the enumerated programs.",
+        text="Deterministic simulation of conversion histories in fresh interpreters with synchronous fault injection: (1) exhaustive enumeration of every eligible CALL site of the patch stack and its callers (sys.monitoring, ~9-20k sites per program) x {ordinary exception, interrupt-class exception} for fixed fixture programs (flat function, module with @onnx_function children, nested functions); (2) seeded histories mixing fault-free and faulted conversions of fixture and registry programs, precision flags (global and scoped), return modes, late and nested decorations, conversions started while another is in flight, GC and eager probes (plain call, jax.jit and jax.eval_shape of the converted callable itself). After every operation the oracle compares the declared write set (586 attributes), periodically the full namespace (~100k statically resolved attributes of jax/flax/equinox/... modules and classes, plus ~1.6k entries of JAX's per-primitive dispatch tables for primitives the host owns), the 64-bit flag (also between operations: what the user's own operations imply), a deep fingerprint of the user object, and eager behaviour against a conversion-free control interpreter (bitwise for fixture programs). Sampling over histories, exhaustive over single-fault sites of the enumerated programs.",
         design_ref="§5.2",
         note="Fault model excludes faults inside cleanup code and asynchronous interrupts between arbitrary lines (no Python code can be safe against those). Trusted: sys.monitoring delivery, inspect.getattr_static, bit-determinism of eager XLA-CPU results across interpreters (falls back to 1e-5 on summary statistics).",
         technique="deterministic simulation: seeded histories + exhaustive synchronous fault-site enumeration, namespace/flag/user-object/behaviour oracle vs control interpreter",
     ),
     "C16": dict(
         category="fault_enumeration",
-        text="Crash-point enumeration: for each program (hand-written fixtures + the repo's own registered testcases) every optimizer pass index (top level and per function body) is forced to abort under the default policy and under the strict policy (quick tier: strict at the first, the last and four seeded pass indices), and every equation-dispatch ordinal of the whole jaxpr tree is faulted seven ways (registry miss, plugin binds nothing, binds an unproduced value, raises, finds one of its inputs unbound, returns too many values, returns a non-value; quick tier: four of the seven per equation); each faulted to_onnx runs real code in a fresh-interpreter worker and is judged against the fault-free control of the same program (raise vs return, onnx checker full_check, ORT load, ORT outputs). Thorough = the entire registry x all crash points (exhaustive over registered programs when the budget suffices). Sampling, not proof, over programs.",
+        text="Crash-point enumeration: for each program (hand-written fixtures + the repo's own registered testcases) every optimizer pass index (top level and per function body) is forced to abort under the default policy and under the strict policy (quick tier: strict at the first, the last and four seeded pass indices), and every equation-dispatch ordinal of the whole jaxpr tree is faulted seven ways (registry miss, plugin binds nothing, binds an unproduced value, raises, finds one of its inputs unbound, returns too many values, returns a non-value; quick tier: four of the seven per equation); each faulted to_onnx runs real code in a fresh-interpreter worker and is judged against the fault-free control of the same program (raise vs return, onnx checker full_check, ORT load, ORT outputs); plus a catalogue of ~100 named unsupported constructs and unusual static variants (loud, or correct and structurally complete), some with a shared cell function or a preceding conversion of the supported sibling in the same interpreter, and value histories of the strict switch. Thorough = the entire registry x all crash points (exhaustive over registered programs when the budget suffices). Sampling, not proof, over programs.",
         design_ref="§5.5",
         note="Trusted: onnx.checker, onnxruntime (single-threaded, no graph optimisation), the seams (module globals _OPTIMIZER_PASSES / dispatch_plugin_lowering / get_registered_lowering_plugin looked up at call time). Mid-pass aborts are excluded by the property's own quantifier.",
         technique="deterministic simulation: crash-point / fault enumeration with fault-free control",
